@@ -166,6 +166,8 @@ class Tree:
         t.nodes = copy.deepcopy(self.nodes)
         t.next = self.next
         t.root = self.root
+        if hasattr(self, 'hardlinks'):
+            t.hardlinks = self.hardlinks
         return t
 
     # ---- model term ----
@@ -764,6 +766,13 @@ WRITE_MTIME = 1800000000
 
 
 def model_request(tree, top, opts, allow_create, allow_xdev, ops, order_key, hash_names, faults=(), extra_digests=(), extra_codec=()):
+    if any(isinstance(n.get('mtime'), float) for n in tree.nodes.values()):
+        # sub-second file times reach the model only through callers that scale them (p_tree.run_cases); elsewhere
+        # the times play no role in the operations: whole seconds
+        tree = tree.clone()
+        for n in tree.nodes.values():
+            if isinstance(n.get('mtime'), float):
+                n['mtime'] = int(n['mtime'])
     hashes, sort, wm, fmt, profile, sign, keyid, vpgp = opts
     o = [[hashes] if hashes is not None else [], [1] if sort else [], [wm] if wm is not None else [], [fmt] if fmt else [], profile,
          [1 if sign else 0] if sign is not None else [], [keyid] if keyid else [], 1 if vpgp else 0]
